@@ -178,6 +178,17 @@ CHECKS["C18"] = (True, "exploration",
     "steps must surface as a non-zero state; each case must terminate.",
     TRUST + "Pairwise merge correctness is C05's.", "6/C18")
 
+CHECKS["C06"] = (True, "exploration",
+    "enumeration of document pairs x 10 comparison-mode combinations against "
+    "truthfulness / coverage / accounting predicates (no reference differ)",
+    "Every document <= 3 nodes against itself, a hand-shaped family (nulls, "
+    "empty containers, repeats, Arrays-of-Hashes, type clashes) pairwise, "
+    "and strided pairs of all documents, under arrays x aoh modes: each "
+    "entry is checked against both documents with an independent key/index "
+    "walker, every leaf must be covered, a non-SAME entry must exist iff the "
+    "data differ, and every list element must be accounted for once.",
+    TRUST + "The harness reads the private DiffEntry._rhs.", "6/C06")
+
 ALL = ["C%02d" % i for i in range(1, 20)]
 
 
